@@ -8,6 +8,7 @@ package main
 import (
 	"fmt"
 	"os"
+	"runtime"
 	"strconv"
 	"sync"
 	"sync/atomic"
@@ -68,6 +69,61 @@ func main() {
 				popped.Add(1)
 			}
 		})
+	case "list1":
+		// one P: goroutines never run in parallel but are preempted at arbitrary
+		// instructions.  Movers take values from the front of ONE list and put them back
+		// at the end; afterwards the list must hold exactly the values it started with.
+		runtime.GOMAXPROCS(1)
+		const K = 64
+		l := listz.NewSync[int]()
+		for v := 1; v <= K; v++ {
+			l.Push(v)
+		}
+		var moved atomic.Int64
+		for g := 0; g < 8; g++ {
+			wg.Add(1)
+			go func() {
+				defer wg.Done()
+				for !stop.Load() {
+					if v, ok := l.Pop(); ok {
+						l.Push(v)
+						moved.Add(1)
+					}
+					if l.Len() < 0 {
+						negLen.Add(1)
+					}
+				}
+			}()
+		}
+		for time.Now().Before(deadline) {
+			time.Sleep(5 * time.Millisecond)
+		}
+		stop.Store(true)
+		wg.Wait()
+		n := l.Len()
+		seen := map[int]int{}
+		drained := 0
+		for k := 0; k < 4*K; k++ {
+			v, ok := l.Pop()
+			if !ok {
+				break
+			}
+			seen[v]++
+			drained++
+		}
+		bad := 0
+		for v := 1; v <= K; v++ {
+			if seen[v] != 1 {
+				bad++
+			}
+		}
+		for v := range seen {
+			if v < 1 || v > K {
+				bad++
+			}
+		}
+		fmt.Printf("moved=%d final-len=%d drained=%d accounting-violations=%d negative-len-samples=%d want=%d\n", moved.Load(), n, drained, bad, negLen.Load(), K)
+		return
 	case "ring":
 		// EVERY method of SyncRing is called concurrently on every shared ring: small
 		// capacities so that the consumers collide on the same head position and the
